@@ -258,7 +258,7 @@ func ReadPatchString(s string) (Diff, error) {
 			diff = append(diff, e)
 		} else {
 			i := len(diff) - 1
-			if diff[i].Path.JsonNode().Equals(e.Path.JsonNode()) {
+			if diff[i].Path.JsonNode().Equals(e.Path.JsonNode()) && !hasContextValues(e) {
 				diff[i].Remove = append(diff[i].Remove, e.Remove...)
 				if isAppendPath(e.Path) {
 					// Appends to the end ("-") happen in order
@@ -272,6 +272,23 @@ func ReadPatchString(s string) (Diff, error) {
 			}
 		}
 	}
+}
+
+// hasContextValues reports whether a diff element read from a JSON
+// Patch carries its own context tests. Such an element starts a new
+// hunk: folding it into the previous one would drop its tests.
+func hasContextValues(e DiffElement) bool {
+	for _, n := range e.Before {
+		if !isVoid(n) {
+			return true
+		}
+	}
+	for _, n := range e.After {
+		if !isVoid(n) {
+			return true
+		}
+	}
+	return false
 }
 
 // isAppendPath reports whether a path ends in the append index (-1),
